@@ -100,4 +100,205 @@ theorem run_inv (env : Env α) {I : State α → Prop} (P : Preserved env I) (op
     · rename_i s1 h1
       exact ih (step_inv env P op hi h1) h
 
+/-! ### preservation under a side condition on the states `_ask_best_point` starts from
+
+Since the repair `fix: LearnerND.tell_pending marked an already evaluated point as pending`, `tell_pending` of a
+point that has a value is a no-op; a predicate about the queue is then preserved by `_ask_best_point` only if the
+point it chose has no value.  `PreservedIf env C I` is `Preserved env I` with that extra premise `C` on the state
+`_ask_best_point` starts from; `Along` / `AlongRun` say that `C` holds in all those states of an `ask(n)` / of a
+history. -/
+
+/-- `P` holds in every state (after the `tri` property was evaluated) from which one of the `n` calls of `_ask`
+made by `ask(n)` in state `s` picks a point that is not a missing corner -/
+def Along (env : Env α) (P : State α → Prop) : Nat → State α → Prop
+  | 0, _ => True
+  | n + 1, s => (missingBound env s = none → ∀ t, touchTri env s = .ok t → P t) ∧
+      ∀ r s1, askOne env s = .ok (r, s1) → Along env P n s1
+
+/-- `C` holds in every state from which a call of `_ask` made by a COMMITTING `ask` of the history `ops` (run
+from `s`) picks a point that is not a missing corner (a non-committing `ask` is rolled back) -/
+def AlongRun (env : Env α) (C : State α → Prop) : State α → List (Op α) → Prop
+  | _, [] => True
+  | s, op :: ops =>
+    (match op with
+      | .ask n true => Along env C n s
+      | _ => True) ∧
+    ∀ s1, step env s op = .ok s1 → AlongRun env C s1 ops
+
+/-- `I` is preserved by the building blocks of the model, by `_ask_best_point` if it starts in a state with `C` -/
+structure PreservedIf (env : Env α) (C I : State α → Prop) : Prop where
+  hTouch : ∀ {s s' : State α}, I s → touchTri env s = .ok s' → I s'
+  hPend : ∀ {s s' : State α} (p : Pt) (hint : Option Simplex), I s → tellPending env s p hint = .ok s' → I s'
+  hTell : ∀ {s s' : State α} (p : Pt) (a b : α), I s → tell env s p a b = .ok s' → I s'
+  hBest : ∀ {s s' : State α} {vs : List Pt} {r : Pt × α}, C s → I s → s.tri = some vs →
+    askBest env s vs = .ok (r, s') → I s'
+  hRemove : ∀ {s : State α}, I s → I (removeUnfinished env s)
+  hRand : ∀ {s : State α}, I s → I { s with nrand := s.nrand + 1 }
+
+theorem Preserved.toIf {env : Env α} {I : State α → Prop} (P : Preserved env I) (C : State α → Prop) :
+    PreservedIf env C I :=
+  ⟨P.hTouch, P.hPend, P.hTell, fun _ => P.hBest, P.hRemove, P.hRand⟩
+
+theorem askOne_invIf (env : Env α) {C I : State α → Prop} (P : PreservedIf env C I) {s s' : State α} {r : Pt × α}
+    (hc : missingBound env s = none → ∀ t, touchTri env s = .ok t → C t)
+    (hi : I s) (h : askOne env s = .ok (r, s')) : I s' := by
+  rcases askOne_form env h with ⟨p, _, _, h1⟩ | ⟨hm, s1, h1, hcase⟩
+  · exact P.hPend p none hi h1
+  · have i1 := P.hTouch hi h1
+    rcases hcase with ⟨_, _, h2⟩ | ⟨vs, hvs, h2⟩
+    · exact P.hPend _ none (P.hRand i1) h2
+    · exact P.hBest (hc hm s1 h1) i1 hvs h2
+
+theorem askLoop_invIf (env : Env α) {C I : State α → Prop} (P : PreservedIf env C I) (n : Nat) :
+    ∀ {s s' : State α} {rs : List (Pt × α)}, Along env C n s → I s → askLoop env n s = .ok (rs, s') → I s' := by
+  induction n with
+  | zero =>
+    intro s s' rs _ hi h
+    simp only [askLoop, Except.ok.injEq, Prod.mk.injEq] at h
+    rw [← h.2]; exact hi
+  | succ n ih =>
+    intro s s' rs ha hi h
+    unfold askLoop at h
+    split at h
+    · exact absurd h (by simp)
+    · rename_i r s1 h1
+      split at h
+      · exact absurd h (by simp)
+      · rename_i rs' s2 h2
+        simp only [Except.ok.injEq, Prod.mk.injEq] at h
+        rw [← h.2]
+        exact ih (ha.2 r s1 h1) (askOne_invIf env P ha.1 hi h1) h2
+
+theorem step_invIf (env : Env α) {C I : State α → Prop} (P : PreservedIf env C I) {s s' : State α} (op : Op α)
+    (hc : match op with
+      | .ask n true => Along env C n s
+      | _ => True)
+    (hi : I s) (h : step env s op = .ok s') : I s' := by
+  cases op with
+  | tell p a b => exact P.hTell p a b hi h
+  | tellPending p => exact P.hPend p none hi h
+  | ask n c =>
+    simp only [step] at h
+    cases ha : ask env s n c with
+    | error e => rw [ha] at h; simp [Except.map] at h
+    | ok r =>
+      rw [ha] at h
+      simp only [Except.map, Except.ok.injEq] at h
+      subst h
+      unfold ask at ha
+      split at ha
+      · exact absurd ha (by simp)
+      · rename_i rs' s1 h1
+        simp only [Except.ok.injEq] at ha
+        subst ha
+        cases c
+        · exact hi
+        · exact askLoop_invIf env P n hc hi h1
+  | removeUnfinished =>
+    simp only [step, Except.ok.injEq] at h
+    subst h; exact P.hRemove hi
+  | loss =>
+    simp only [step] at h
+    cases ha : lossOp env s with
+    | error e => rw [ha] at h; simp [Except.map] at h
+    | ok r =>
+      rw [ha] at h
+      simp only [Except.map, Except.ok.injEq] at h
+      subst h
+      unfold lossOp at ha
+      split at ha
+      · exact absurd ha (by simp)
+      · rename_i s1 h1
+        have i1 := P.hTouch hi h1
+        split at ha <;> (simp only [Except.ok.injEq] at ha; subst ha; exact i1)
+
+theorem run_invIf (env : Env α) {C I : State α → Prop} (P : PreservedIf env C I) (ops : List (Op α)) :
+    ∀ {s s' : State α}, AlongRun env C s ops → I s → run env s ops = .ok s' → I s' := by
+  induction ops with
+  | nil => intro s s' _ hi h; simp only [run, Except.ok.injEq] at h; subst h; exact hi
+  | cons op ops ih =>
+    intro s s' hc hi h
+    unfold run at h
+    split at h
+    · exact absurd h (by simp)
+    · rename_i s1 h1
+      exact ih (hc.2 s1 h1) (step_invIf env P op hc.1 hi h1) h
+
+/-- executable version of `Along` for a decidable condition (used to check `AlongRun` on concrete histories) -/
+def alongB (env : Env α) (c : State α → Bool) : Nat → State α → Bool
+  | 0, _ => true
+  | n + 1, s =>
+    (match missingBound env s with
+      | some _ => true
+      | none =>
+        match touchTri env s with
+        | .ok t => c t
+        | .error _ => true) &&
+    (match askOne env s with
+      | .ok (_, s1) => alongB env c n s1
+      | .error _ => true)
+
+/-- executable version of `AlongRun` -/
+def alongRunB (env : Env α) (c : State α → Bool) : State α → List (Op α) → Bool
+  | _, [] => true
+  | s, op :: ops =>
+    (match op with
+      | .ask n true => alongB env c n s
+      | _ => true) &&
+    (match step env s op with
+      | .ok s1 => alongRunB env c s1 ops
+      | .error _ => true)
+
+theorem alongB_sound (env : Env α) {c : State α → Bool} {C : State α → Prop} (hc : ∀ t, c t = true → C t)
+    (n : Nat) : ∀ s, alongB env c n s = true → Along env C n s := by
+  induction n with
+  | zero => intro s _; trivial
+  | succ n ih =>
+    intro s h
+    simp only [alongB, Bool.and_eq_true] at h
+    obtain ⟨h1, h2⟩ := h
+    refine ⟨?_, ?_⟩
+    · intro hm t ht
+      rw [hm, ht] at h1
+      exact hc t h1
+    · intro r s1 ha
+      rw [ha] at h2
+      exact ih s1 h2
+
+theorem alongRunB_sound (env : Env α) {c : State α → Bool} {C : State α → Prop} (hc : ∀ t, c t = true → C t)
+    (ops : List (Op α)) : ∀ s, alongRunB env c s ops = true → AlongRun env C s ops := by
+  induction ops with
+  | nil => intro s _; trivial
+  | cons op ops ih =>
+    intro s h
+    simp only [alongRunB, Bool.and_eq_true] at h
+    obtain ⟨h1, h2⟩ := h
+    refine ⟨?_, ?_⟩
+    · cases op with
+      | ask n c' =>
+        cases c' with
+        | false => trivial
+        | true => exact alongB_sound env hc n s h1
+      | _ => trivial
+    · intro s1 hs
+      rw [hs] at h2
+      exact ih s1 h2
+
+/-- a condition that holds in every state holds along every history -/
+theorem AlongRun.of_forall (env : Env α) {C : State α → Prop} (hC : ∀ t, C t) (ops : List (Op α)) :
+    ∀ s, AlongRun env C s ops := by
+  have hA : ∀ n s, Along env C n s := by
+    intro n
+    induction n with
+    | zero => intro s; trivial
+    | succ n ih => intro s; exact ⟨fun _ t _ => hC t, fun _ s1 _ => ih s1⟩
+  induction ops with
+  | nil => intro s; trivial
+  | cons op ops ih =>
+    intro s
+    refine ⟨?_, fun s1 _ => ih s1⟩
+    cases op with
+    | ask n c => cases c <;> first | trivial | exact hA n s
+    | _ => trivial
+
 end LND
